@@ -141,11 +141,20 @@ func genFunction(prog *ssa.Program, cs *Contracts, fn *ssa.Function, fc *FuncCon
 				ids = append(ids, x.ID)
 			}
 		}
+		if c.distinctGrp == nil {
+			c.distinctGrp = map[string]int{}
+		}
 		if len(refs) > 1 {
 			c.emit("(assert " + app(SBool, "distinct", refs...).S + ")")
+			for _, r := range refs {
+				c.distinctGrp[r.S] = 1
+			}
 		}
 		if len(ids) > 1 {
 			c.emit("(assert " + app(SBool, "distinct", ids...).S + ")")
+			for _, r := range ids {
+				c.distinctGrp[r.S] = 2
+			}
 		}
 		c.note("A-NOALIAS: distinct array / slice arguments of " + fn.String() + " do not overlap")
 	}
@@ -301,6 +310,75 @@ func (c *Ctx) checkFrame(fr *Frame, env *Env, entryCut int) []string {
 
 func (o *Obligation) query() string { return o.queryVariant(false) }
 
+// constRecips replaces every reciprocal (recip Y) by one constant per distinct
+// divisor term Y (Ackermann-style, without the congruence axioms: fewer
+// assumptions, so only unsat answers are meaningful). Quotients then are plain
+// products of variables, which the non-linear procedures normalise well.
+func constRecips(q string) string {
+	keys := map[string]string{}
+	var order []string
+	name := func(y *sx) string {
+		k := y.String()
+		if n, ok := keys[k]; ok {
+			return n
+		}
+		n := fmt.Sprintf("recipc_%d", len(keys))
+		keys[k] = n
+		order = append(order, n)
+		return n
+	}
+	var rw func(n *sx) *sx
+	rw = func(n *sx) *sx {
+		if n.list == nil {
+			return n
+		}
+		if len(n.list) == 3 && n.list[0].atom == "rdiv" {
+			return &sx{list: []*sx{{atom: "*"}, rw(n.list[1]), {atom: name(n.list[2])}}}
+		}
+		if len(n.list) == 2 && n.list[0].atom == "recip" {
+			return &sx{atom: name(n.list[1])}
+		}
+		out := &sx{list: make([]*sx, len(n.list))}
+		for i, c := range n.list {
+			out.list[i] = rw(c)
+		}
+		return out
+	}
+	var body strings.Builder
+	for _, l := range strings.Split(q, "\n") {
+		if strings.HasPrefix(l, "(declare-fun recip ") || strings.HasPrefix(l, "(define-fun rdiv ") || strings.TrimSpace(l) == "" {
+			continue
+		}
+		if !strings.Contains(l, "rdiv") && !strings.Contains(l, "recip") {
+			body.WriteString(l + "\n")
+			continue
+		}
+		for _, n := range parseSexprs(l) {
+			body.WriteString(rw(n).String() + "\n")
+		}
+	}
+	var decl strings.Builder
+	for _, n := range order {
+		decl.WriteString("(declare-const " + n + " Real)\n")
+	}
+	// declarations must precede their first use: put them first
+	return decl.String() + body.String()
+}
+
+// interpretedDiv turns the reciprocal encoding back into real division.
+func interpretedDiv(q string) string {
+	q = strings.Replace(q, recipUF, recipDef, 1)
+	var b strings.Builder
+	for _, l := range strings.Split(q, "\n") {
+		if strings.Contains(l, ":named recipax") {
+			continue
+		}
+		b.WriteString(l)
+		b.WriteString("\n")
+	}
+	return b.String()
+}
+
 // queryVariant(true) drops every quantified assumption: fewer assumptions, so
 // unsat is still a proof, and the query is quantifier-free for the solver's
 // non-linear arithmetic procedures. Its sat answers mean nothing.
@@ -308,6 +386,7 @@ func (o *Obligation) queryVariant(dropQuantified bool) string {
 	var b strings.Builder
 	b.WriteString("(set-option :produce-models true)\n")
 	b.WriteString(goDivPrelude)
+	b.WriteString(recipUF)
 	for _, l := range o.ctx.lines[:o.Prefix] {
 		if dropQuantified && strings.HasPrefix(l, "(assert") && (strings.Contains(l, "(forall ") || strings.Contains(l, "(exists ")) {
 			continue
@@ -346,7 +425,14 @@ func discharge(o *Obligation, outDir string, timeoutS int) *OblResult {
 	if !o.ExpectSat && !strings.Contains(o.Goal.S, "(forall ") && !strings.Contains(o.Goal.S, "(exists ") {
 		if qf := o.queryVariant(true); len(qf) != len(q) {
 			variants = append(variants, queryVariant{"qf", qf, false})
+			if strings.Contains(qf, "(rdiv ") {
+				variants = append(variants, queryVariant{"qf-div", interpretedDiv(qf), false})
+				variants = append(variants, queryVariant{"qf-rc", constRecips(qf), false})
+			}
 		}
+	}
+	if strings.Contains(q, "(rdiv ") {
+		variants = append(variants, queryVariant{"div", interpretedDiv(q), true})
 	}
 	sr := solve(outDir, o.Name, variants, timeoutS)
 	r.Solver, r.Ms, r.Output, r.AllStat = sr.Solver, sr.Ms, sr.Output, sr.All
